@@ -309,6 +309,14 @@ impl SimNet {
 
     /// Host goes away. `vanish = false`: its connections are reset and later connects refused;
     /// `vanish = true`: its connections go silent and later connects are black-holed.
+    /// The host is back (a restarted process binds its listeners afterwards). Connections of the
+    /// previous incarnation stay dead: the surviving ends get an error at their next write.
+    pub fn host_up(&self, ip: IpAddr) {
+        self.st.lock().unwrap().down.remove(&ip);
+        self.handle.event(format!("net: host {ip} up"));
+        self.handle.fault("restart");
+    }
+
     pub fn host_down(&self, ip: IpAddr, vanish: bool) {
         self.host_down_opt(ip, vanish, true)
     }
@@ -340,11 +348,6 @@ impl SimNet {
         if count {
             self.handle.fault(if vanish { "kill_vanish" } else { "kill_reset" });
         }
-    }
-
-    pub fn host_up(&self, ip: IpAddr) {
-        self.st.lock().unwrap().down.remove(&ip);
-        self.handle.event(format!("net: host {ip} up"));
     }
 
     /// (id, client, server, dead_since_ns, created_ns)
